@@ -50,6 +50,11 @@ static void own_ops(int a, int u, int nops, int *seq, int parity_all)
             ABT_thread_yield();
     }
 }
+static void mig_cb_unused(ABT_thread t, void *a)
+{
+    (void)t;
+    (void)a;
+}
 static void body(void *arg)
 {
     unit_t *u = (unit_t *)arg;
@@ -128,9 +133,17 @@ static void scenario(const char *name, uint64_t seed)
         u->es = rnd(g_nes);
         u->nops = 2 + rnd(8);
         EV("\"e\":\"UnitNew\",\"u\":%d,\"kind\":%d,\"named\":%d", i, u->kind, u->named);
-        if (u->kind == 0)
-            CHK(ABT_thread_create(g_pool[u->es], body, u, ABT_THREAD_ATTR_NULL, u->named ? &u->th : NULL));
-        else
+        if (u->kind == 0) {
+            /* the library keeps its own data (migration callback) in the same key table */
+            ABT_thread_attr attr;
+            CHK(ABT_thread_attr_create(&attr));
+            if (rnd(2))
+                CHK(ABT_thread_attr_set_callback(attr, mig_cb_unused, u));
+            CHK(ABT_thread_create(g_pool[u->es], body, u, attr, u->named ? &u->th : NULL));
+            CHK(ABT_thread_attr_free(&attr));
+            if (u->named && rnd(2))
+                CHK(ABT_thread_set_callback(u->th, mig_cb_unused, u));
+        } else
             CHK(ABT_task_create(g_pool[u->es], body, u, u->named ? &u->th : NULL));
     }
     /* the primary ULT has storage of its own */
